@@ -413,6 +413,10 @@ class Resample(_NoReplay):
             if len(ss) != 1:
                 return
             idx = ss[0]["out"].fn((j,))
+            # the law of the indices: the systematic pointer comb of THESE weights, also when the offset is drawn by
+            # resample / resample_vectorized_trace and handed to systematic_resample
+            for nm, f in systematic_pointers(n, w):
+                yield "systematic:" + nm, f
         tr, tr0 = r.traces, p.traces
         # range of the sampler's indices: a categorical draw is an index of the logits (A-TFP); searchsorted counts the
         # entries below the pointer, 0..n INCLUSIVE - n happens when the cumulative weights fall short of the last
@@ -456,6 +460,28 @@ class ResampleLML(Contract):
         yield "log_marginal_likelihood_exactly_unchanged", after == before
 
 
+def systematic_pointers(n, w):
+    """the pointer comb of systematic resampling, wherever the single offset is drawn (inside systematic_resample or by
+    its caller): ONE scalar uniform draw on a non-empty range; pointer j at (j + u) / n with u the draw rescaled to the
+    unit interval, i.e. uniformly placed inside its stratum; searched (left) in the cumulative normalised weights"""
+    from vt.tensor import _toreal
+
+    yield "one_scalar_uniform_offset", len(UNI.sample_calls) == 1 and len(UNI.sample_calls[0]["args"]) == 2 and UNI.sample_calls[0]["sample_shape"] == ()
+    cs, ss = jnp_stub.CALLS["cumsum"], jnp_stub.CALLS["searchsorted"]
+    yield "one_cumsum_one_searchsorted(left)", len(cs) == 1 and len(ss) == 1 and ss[0]["side"] == "left"
+    if not (len(cs) == 1 and len(ss) == 1 and len(UNI.sample_calls) == 1):
+        return
+    i = fresh("i", z3.IntSort())
+    L = lse(n, w)
+    yield "cumsum_of_normalised_weights", cs[0]["x"].fn((i,)) == JNP.exp(Sym(w.fn((i,)) - L)).e
+    lo, hi = (_toreal(_lift(x)) for x in UNI.sample_calls[0]["args"])
+    yield "offset_range_is_not_empty", hi > lo
+    u = dists.DrawR(UNI.id, UNI.sample_calls[0]["nonce"], lo, hi)
+    u01 = u if (z3.eq(z3.simplify(lo), z3.RealVal(0)) and z3.eq(z3.simplify(hi), z3.RealVal(1))) else (u - lo) / (hi - lo)
+    yield "positions_are_(j+u)/n(u_the_offset_rescaled_to_the_unit_interval)", ss[0]["v"].fn((i,)) == (z3.ToReal(i) + u01) / z3.ToReal(n)
+    yield "one_position_per_particle", dim_eq(ss[0]["v"].shape[0], n)
+
+
 @contract("genjax.inference.smc:systematic_resample", ["C12"])
 class Systematic(_NoReplay):
     def replay(self, case, clause, model, path):
@@ -480,22 +506,10 @@ class Systematic(_NoReplay):
         n, w = self.n, self.w
         # ONE scalar uniform draw; its range may be written as U(0,1) (then divided by n) or e.g. U(0, 1/n): what matters
         # is the position it is mapped to (next clauses)
-        yield "one_scalar_uniform_offset", len(UNI.sample_calls) == 1 and len(UNI.sample_calls[0]["args"]) == 2 and UNI.sample_calls[0]["sample_shape"] == ()
+        yield from systematic_pointers(n, w)
         cs, ss = jnp_stub.CALLS["cumsum"], jnp_stub.CALLS["searchsorted"]
-        yield "one_cumsum_one_searchsorted(left)", len(cs) == 1 and len(ss) == 1 and ss[0]["side"] == "left"
         if not (len(cs) == 1 and len(ss) == 1 and len(UNI.sample_calls) == 1):
             return
-        i = fresh("i", z3.IntSort())
-        L = lse(n, w)
-        yield "cumsum_of_normalised_weights", cs[0]["x"].fn((i,)) == JNP.exp(Sym(w.fn((i,)) - L)).e
-        from vt.tensor import _toreal
-
-        lo, hi = (_toreal(_lift(x)) for x in UNI.sample_calls[0]["args"])
-        yield "offset_range_is_not_empty", hi > lo
-        u = dists.DrawR(UNI.id, UNI.sample_calls[0]["nonce"], lo, hi)
-        u01 = u if (z3.eq(z3.simplify(lo), z3.RealVal(0)) and z3.eq(z3.simplify(hi), z3.RealVal(1))) else (u - lo) / (hi - lo)
-        yield "positions_are_(j+u)/n(u_the_offset_rescaled_to_the_unit_interval)", ss[0]["v"].fn((i,)) == (z3.ToReal(i) + u01) / z3.ToReal(n)
-        yield "one_position_per_particle", dim_eq(ss[0]["v"].shape[0], n)
         yield "searched_in_the_cumulative_weights", ss[0]["a"] is cs[0]["out"]
         yield "returns_the_searchsorted_indices", path.value is ss[0]["out"] and dim_eq(path.value.shape[0], n)
 
